@@ -843,6 +843,7 @@ func mvccMain(args []string) int {
 				}
 			}
 			nsc++
+			t.Flush() // a crash inside a library goroutine must not lose the scenarios already completed
 		}
 	} else {
 		rnd := rand.New(rand.NewSource(*seed))
@@ -855,6 +856,7 @@ func mvccMain(args []string) int {
 				}
 			}
 			nsc++
+			t.Flush()
 		}
 	}
 	t.Flush()
